@@ -23,6 +23,25 @@ CLAIMED = {
               'property on the real objects.'),
         note=COMMON_NOTE + 'Not modelled: node.errors.sort() (compared as multisets).',
         design='§6 C11'),
+    'C13': dict(
+        technique='Lean 4 proof (message-count invariants of the rendering model) + correspondence of the Render model on the real recorded errors',
+        text=('Theorems C13_count / C13_count_flatten (exactly one message per non-group error and per *of error: nothing dropped, '
+              'nothing duplicated), C13_empty (empty iff no errors), C13_messages and C13_codes (on the extracted message/definition '
+              'tables) hold for every error forest of the Lean model of BasicErrorHandler (path rewriting for group and *of errors, '
+              'insertion, purge). The model is tied to errors.py by rendering the real recorded errors of generated validations '
+              'with both and comparing trees (messages abstracted to error tags). Purity, key set and list shape are decided by the '
+              'port and the direct oracle on the real objects (stated as such; no theorem is claimed for Python-level mutation).'),
+        note=COMMON_NOTE + 'Message texts are not modelled (tags instead); the key-set clause has no theorem yet (port + oracle only).',
+        design='§6 C13'),
+    'C17': dict(
+        technique='Lean 4 proof (termination measure over the rotation streak, accounting invariant) + correspondence of the work-list model + least-fixpoint oracle',
+        text=('C17_terminates: for every setter family, pending list and mapping the work list stops within n(n+3)/2 iterations; '
+              'C17_total: every pending field ends with a value or a "default cannot be set" error; C17_other_exc / C17_keyerror_requeues: '
+              'another exception touches its own field only. The least-fixpoint / order-independence clause is partial (C17_lfp_partial): '
+              'it is decided by the port (model vs real normalization) and an independent least-fixpoint oracle, exhaustively for all '
+              'dependency graphs on <= 3 fields x present-subsets x orders in the thorough tier, randomly up to 6 fields.'),
+        note=COMMON_NOTE + 'Setters are modelled by their result class (value / KeyError / other exception).',
+        design='§6 C17'),
 }
 
 WIP = 'not claimed yet: machinery for this property is still being built (see DESIGN.md roadmap)'
